@@ -8,7 +8,9 @@ import common, vbuild, calls, apigen, apisweep, c03
 from common import Stats, mix
 
 VERIF = common.VERIF
-TSAN_ENV = dict(TSAN_OPTIONS="halt_on_error=1:exitcode=97:second_deadlock_stack=1:report_signal_unsafe=0")
+# history_size=7: the race detector drops a race whose earlier access it can no longer find in that thread's event history; on a loaded machine
+# one thread can be thousands of calls ahead of another
+TSAN_ENV = dict(TSAN_OPTIONS="halt_on_error=1:exitcode=97:second_deadlock_stack=1:report_signal_unsafe=0:history_size=7")
 
 
 def private_array_line(rng):
@@ -74,7 +76,7 @@ def work_big(item):
 COMMA = None      # dict(LOCPATH, name) of the comma-decimal locale built by run(), or None
 
 
-def run_mix(st, exe, lines, T, sdir, tag, rng, mi, comma=False):
+def run_mix(st, exe, lines, T, sdir, tag, rng, mi, comma=False, lockstep=False):
     """serial reference + three thread runs (yield patterns) of one list of call lines; judged here"""
     TSAN_ENV = dict(globals()["TSAN_ENV"])
     if comma and COMMA:
@@ -91,7 +93,8 @@ def run_mix(st, exe, lines, T, sdir, tag, rng, mi, comma=False):
             st.violation("private-array-scenario-broken", dict(mix=mi), "array and file", l[:200])
     for ys in (0, 1 + rng.randrange(1000), 1 + rng.randrange(1000)):
         st.ev()
-        out, rc, err = calls.run(exe, "threads:%d:%d" % (T, ys), lines, sdir, tag + "_t", env=TSAN_ENV)
+        # focus mixes: the first run in lockstep (a barrier before every round of T calls), the others free-running with yields
+        out, rc, err = calls.run(exe, "threads:%d:%d:%d" % (T, ys, 1 if (lockstep and ys == 0) else 0), lines, sdir, tag + "_t", env=TSAN_ENV)
         case = dict(threads=T, calls=len(lines), yield_seed=ys, sample=[l.replace("\t", " ")[:80] for l in lines[:6]])
         if rc != 0 or "ThreadSanitizer" in err:
             import re
@@ -183,7 +186,7 @@ def work_focus(item):
                     a2 = ["h:" + args[0][2:]] + list(args[1:])
                     lines += [calls.line(fn, kinds, a2)] * T
         if lines:
-            run_mix(st, exe, lines, T, sdir, tag, rng, "focus:" + ",".join(fns[gi:gi + 6]), comma=((gi // 6) % 4 == 3))
+            run_mix(st, exe, lines, T, sdir, tag, rng, "focus:" + ",".join(fns[gi:gi + 6]), comma=((gi // 6) % 4 == 3), lockstep=True)
             st.cls("focus_mixes")
     return st
 
